@@ -526,6 +526,81 @@ def mix_reference(case):
     return float(res.fun)
 
 
+def gen_ruleprobe(rng, cfg):
+    """dro model whose optimal decision rule is UNIQUE and differs from event to event: y(z) = a_e + k_e z has to dominate |z|
+    on the (asymmetric) support of every scenario of its event, E[z | s] is pinned, the objective is the expectation of y.
+    Per event the rule is the unique vertex of a tiny LP solved directly here."""
+    from scipy.optimize import linprog
+    lp = W.REAL.get('linprog', linprog)
+    for _ in range(50):
+        S = rng.randint(2, 5)
+        labels, intlab = gen_labels(rng, S)
+        lo = [round(-rng.uniform(0.3, 2.0), 2) for _ in range(S)]
+        hi = [round(rng.uniform(0.3, 2.5), 2) for _ in range(S)]
+        for s in range(S):
+            u = rng.random()
+            if u < 0.3:
+                lo[s] = round(rng.uniform(0.2, 0.8), 2)         # support on one side of zero
+                hi[s] = round(lo[s] + rng.uniform(0.5, 2.0), 2)
+            elif u < 0.5:
+                hi[s] = round(-rng.uniform(0.2, 0.8), 2)
+                lo[s] = round(hi[s] - rng.uniform(0.5, 2.0), 2)
+        mu = [round(lo[s] + (hi[s] - lo[s]) * rng.uniform(0.2, 0.8), 3) for s in range(S)]
+        praw = rng.sample([1, 2, 3, 4, 5, 6, 7], S)
+        p = [x / sum(praw) for x in praw]
+        rp = RefPartition(S)
+        calls = []
+        for positions in gen_partition_calls(rng, S):
+            rp.adapt(positions)
+            calls.append(_adapt_scen_op(rng, ['v', 'y'], labels, intlab, positions, 'F'))
+        events = rp.partition()
+        rules, ok = {}, True
+        for ev in events:
+            # minimise sum_{s in ev} p_s (a + k mu_s)  s.t.  a + k z >= |z| at both ends of every scenario's support (and at 0)
+            c = [sum(p[s] for s in ev), sum(p[s] * mu[s] for s in ev)]
+            A, b = [], []
+            for s in ev:
+                for zv in (lo[s], hi[s]) + ((0.0,) if lo[s] < 0 < hi[s] else ()):
+                    A.append([-1.0, -zv])
+                    b.append(-abs(zv))
+            res = lp(c, A_ub=np.array(A), b_ub=np.array(b), bounds=[(None, None), (None, None)])
+            if res.status != 0:
+                ok = False
+                break
+            # uniqueness: the optimum must deteriorate in every direction along the active constraints (checked by perturbing c)
+            alt = [lp([c[0] + d0, c[1] + d1], A_ub=np.array(A), b_ub=np.array(b), bounds=[(None, None), (None, None)])
+                   for d0, d1 in ((1e-3, 0), (-1e-3, 0), (0, 1e-3), (0, -1e-3))]
+            if any(r_.status != 0 or np.max(np.abs(r_.x - res.x)) > 1e-6 for r_ in alt):
+                ok = False
+                break
+            rules[tuple(ev)] = (float(res.x[0]), float(res.x[1]))
+        if not ok:
+            continue
+        ks = sorted(set(round(v[1], 6) for v in rules.values()))
+        if len(events) > 1 and len(ks) < 2 and rng.random() < 0.8:
+            continue                                            # prefer cases whose events really get different rules
+        ops = [{'op': 'model', 'id': 'm', 'kind': 'dro', 'scens': S if intlab else labels},
+               {'op': 'rvar', 'id': 'z', 'm': 'm', 'shape': []}, {'op': 'dvar', 'id': 'y', 'm': 'm'},
+               {'op': 'amb', 'id': 'F', 'm': 'm'}]
+        for s in range(S):
+            sc = labels[s] if intlab else {'loc': labels[s]}
+            ops.append({'op': 'supp', 'amb': 'F', 'scen': sc, 'set': [['>=', ['v', 'z'], ['c', lo[s]]], ['<=', ['v', 'z'], ['c', hi[s]]]]})
+            ops.append({'op': 'expt', 'amb': 'F', 'scen': sc, 'set': [['==', ['E', ['v', 'z']], ['c', mu[s]]]]})
+        ops.append({'op': 'prob', 'amb': 'F', 'set': [['==', ['v', 'm.p'], ['c', p]]]})
+        ad = calls + [{'op': 'adapt', 'tgt': ['v', 'y'], 'to': ['v', 'z']}]
+        rng.shuffle(ad)
+        ops += ad
+        ops += [{'op': 'cons', 'id': 'c1', 'e': ['>=', ['v', 'y'], ['v', 'z']]},
+                {'op': 'cons', 'id': 'c2', 'e': ['>=', ['v', 'y'], ['neg', ['v', 'z']]]},
+                {'op': 'obj', 'm': 'm', 'how': 'minsup', 'e': ['E', ['v', 'y']], 'amb': 'F'},
+                {'op': 'st', 'm': 'm', 'ids': ['c1', 'c2']}]
+        opt = sum(p[s] * (rules[tuple(ev)][0] + rules[tuple(ev)][1] * mu[s]) for ev in events for s in ev)
+        return {'kind': 'ruleprobe', 'ops': ops, 'labels': labels, 'intlab': intlab, 'S': S, 'p': p,
+                'expect': {'py': events, 'rules': [[list(ev), rules[tuple(ev)][0], rules[tuple(ev)][1]] for ev in events], 'opt': opt},
+                'pool': ['def', 'lpg', 'ort', 'grb', 'eco'], 'lo': lo, 'hi': hi, 'mu': mu}
+    return gen_mix(rng, cfg)
+
+
 ILLEGAL = ['redeclare_scen', 'redeclare_scen_after_exhaust', 'redeclare_dep', 'affine_int', 'foreign_rvar',
            'unknown_label', 'adapt_after_use', 'adapt_after_formulate', 'ldr_adapt_after_use', 'ldr_redeclare_dep',
            'ldr_foreign_rvar', 'affine_times_random', 'ldr_times_random', 'convex_of_adaptive']
@@ -720,8 +795,9 @@ def gen_illegal(rng, cfg):
         else:               # inside the objective
             ops.append({'op': 'cons', 'id': 'cb', 'e': ['>=', ['v', 't'], ['c', -5.0]], 'expect': 'raise_tail'})
         ops += [{'op': 'cons', 'id': 'cx', 'e': ['<=', ['f', 'abs', ['v', 'x']], ['c', 1.0]], 'expect': 'raise_tail'},
-                {'op': 'cons', 'id': 'cy', 'e': ['<=', ['f', 'abs', ['v', 'y']], ['c', 1.0]], 'expect': 'raise_tail'},
-                {'op': 'st', 'm': 'm', 'ids': ['cb', 'cx', 'cy'], 'expect': 'raise_tail'},
+                {'op': 'cons', 'id': 'cy', 'e': ['<=', ['v', 'y'], ['c', 1.0]], 'expect': 'raise_tail'},
+                {'op': 'cons', 'id': 'cy2', 'e': ['>=', ['v', 'y'], ['c', -1.0]], 'expect': 'raise_tail'},
+                {'op': 'st', 'm': 'm', 'ids': ['cb', 'cx', 'cy', 'cy2'], 'expect': 'raise_tail'},
                 {'op': 'obj', 'm': 'm', 'how': 'minsup', 'e': ['E', ['+', ['v', 't'], tot]] if use == 2 else ['E', ['v', 't']],
                  'amb': 'F', 'expect': 'raise_tail'},
                 {'op': 'solve', 'm': 'm', 'solver': rng.choice(['def', 'grb', 'ort']), 'expect': 'raise_tail'}]
@@ -730,9 +806,12 @@ def gen_illegal(rng, cfg):
 
 def gen_case(seed, cfg):
     rng = random.Random(seed)
-    kinds = cfg.get('kinds', ['combo-dro'] * 5 + ['combo-ro'] * 2 + ['mix'] * 2 + ['illegal'] * 3)
+    kinds = cfg.get('kinds', ['combo-dro'] * 5 + ['combo-ro'] * 2 + ['mix'] * 2 + ['illegal'] * 3 + ['ruleprobe'] * 2)
     k = rng.choice(kinds)
-    if k == 'combo-dro':
+    if k == 'ruleprobe':
+        case = gen_ruleprobe(rng, cfg)
+        k = case['kind']
+    elif k == 'combo-dro':
         case = gen_combo(rng, cfg, 'dro')
     elif k == 'combo-ro':
         case = gen_combo(rng, cfg, 'ro')
@@ -923,7 +1002,7 @@ def _check_solved(case, it, w, viol, stats, probe, props):
             # C12: results of a failed model cannot be read (this is the first solve of the model: whether the failure
             # propagated as an exception or was reported as a status, no query may return numbers afterwards)
             stats['checks_c12'] += 1
-            for nm in ('m',) + (('y', 't') if case['kind'].startswith('combo') else ('x1',)):
+            for nm in ('m',) + (('y', 't') if case['kind'].startswith('combo') else ('y',) if case['kind'] == 'ruleprobe' else ('x1',)):
                 try:
                     v = it.env[nm].get()
                     viol('C12', 'read-after-failed-solve', '%s.get() returned %r after a failed solve (status fault %s)'
@@ -950,6 +1029,37 @@ def _check_solved(case, it, w, viol, stats, probe, props):
     # tolerance for individual values: relative to the scale of the solution (an interior-point engine returns 1e-5
     # where the exact value is 0 while other entries are of order 10-100)
     vtol = (1e-5 if last_sv != 'eco' else 1e-4) * (1.0 + abs(out['obj']))
+
+    if case['kind'] == 'ruleprobe':
+        stats['checks_c13'] += 1
+        probe('ruleprobe')
+        if not close(out['obj'], ex['opt'], tol * 10):
+            viol('C13', 'ruleprobe-optimum', 'optimum %.9g, but the per-event rule LPs give %.9g (events %s)' % (out['obj'], ex['opt'], ex['py']))
+            return
+        y, zobj = it.env['y'], it.env['z']
+        try:
+            rows0, idx = _series_to_rows(y(), S)
+            coef, _ = _series_to_rows(y.get(zobj), S)
+            v_ = 0.37
+            rows1, _ = _series_to_rows(y(zobj.assign(v_)), S)
+        except Exception as e:
+            viol('C12', 'readback-raises', 'reading the rule back raised %r' % (e,), exc=type(e).__name__)
+            return
+        if len(ex['py']) > 1:
+            probe('ruleprobe_eventwise')
+        for ev, a_, k_ in ex['rules']:
+            for s in ev:
+                stats['checks_c12'] += 1
+                g0, gk, g1 = float(rows0[s].reshape(-1)[0]), float(np.asarray(coef[s], float).reshape(-1)[0]), float(rows1[s].reshape(-1)[0])
+                if abs(g0 - a_) > vtol * 10 or abs(gk - k_) > vtol * 10:
+                    viol('C12', 'ruleprobe-rule', 'rule read back at label %r: y() = %.9g, y.get(z) = %.9g; the unique optimal rule of its '
+                         'event %s is %.9g + %.9g z' % (labels[s], g0, gk, [labels[q] for q in ev], a_, k_), tags=['labelled_readback'])
+                    return
+                if abs(g1 - (a_ + k_ * v_)) > vtol * 10:
+                    viol('C12', 'rule-eval', 'y(z.assign(%.2f)) = %.9g at label %r, the rule of its event gives %.9g'
+                         % (v_, g1, labels[s], a_ + k_ * v_))
+                    return
+        return
 
     if case['kind'] == 'mix':
         ref_opt = mix_reference(case)
